@@ -18,7 +18,7 @@ UniqueKids(s) == \A i, j \in 1..Len(s) : (i # j /\ s[i].kid # "") => s[i].kid # 
 Init ==
     \/ \E t \in KeyTypes : \E a \in AllAlgs : \E v \in BOOLEAN : \E p \in BOOLEAN :
           c = [table |-> "validate", key |-> Key(t, a, v, p)]
-    \/ \E n \in 0..MaxSet : \E ks \in [1..n -> SetKeys] : \E ids \in [1..n -> Kids] : \E req \in {"", "k1", "k2", "k3"} :
+    \/ \E n \in 0..MaxSet : \E ks \in [1..n -> SetKeys] : \E ids \in [1..n -> Kids] : \E req \in {"", "k1", "k2", "k3", "k1 ", " k2", " ", "K1"} :       \* near misses of present ids: an id is matched exactly (no trimming, no case folding); " " is an id
           LET s == [i \in 1..n |-> WithKid(ks[i], ids[i])]
           IN UniqueKids(s) /\ c = [table |-> "loadkey", set |-> s, req |-> req]
 Next == FALSE /\ c' = c
